@@ -127,10 +127,15 @@ def field_selectors(rng, nf, names, exhaustive=True, budget=200):
               {"t": "names", "v": list(names)[::-1]}]
     if nf >= 2:
         lists.append({"t": "names", "v": [list(names)[0], list(names)[-1]]})
+    far = []
+    if nf >= 10:
+        # a few fields far apart in the record (the span is many times the number of fields asked for)
+        far = [{"t": "list", "v": [0, nf - 1]}, {"t": "list", "v": [1, nf - 1]}, {"t": "ndarray", "v": [0, nf - 2, nf - 1]},
+               {"t": "names", "v": [list(names)[0], list(names)[-1]]}, {"t": "list", "v": [nf - 1, 0]}]
     if exhaustive:
-        return out + sl + lists
+        return out + sl + lists + far
     rng.shuffle(sl); rng.shuffle(lists)
-    return out + sl[:budget] + lists[: max(10, budget // 4)]
+    return out + far + sl[:budget] + lists[: max(10, budget // 4)]
 
 
 def box_selectors(rng, nb):
